@@ -145,7 +145,7 @@ def parse_model(out, tags):
 
 class FormatsStream(Stream):
     name = "formats"
-    rule = ("the C01 tree generator (0-5 simultaneous defects of 14 kinds, names with spaces, colon, non-ASCII; REUSE.toml / dep5 / Git): "
+    rule = ("the C01 tree generator (0-5 simultaneous defects of 20 kinds, names with spaces, colon, non-ASCII; REUSE.toml hierarchies / dep5 with wildcard paragraphs / Git): "
             "the real `reuse lint --json`, `--plain`, `--lines`, `--quiet` on one tree, each output parsed back by its own parser into "
             "(category, item) sets, compared with the model's four formatters fed from the generator's records; oracle = same exit status, "
             "same sets per category across formats (licence-level lines items mapped to LICENSES/ paths through the generator's records), "
@@ -259,6 +259,9 @@ def selectors(rng, case):
         cov.append(".gitignore")
     non = ["LICENSES/" + n for n in case["lic"]] + [x["p"] for x in case.get("extra", []) if x["k"] in ("plain", "empty", "gitignored")]
     non += [f["p"] + ".license" for f in case["files"] if f["how"] == "dotlicense"]
+    # the global licensing files themselves: REUSE.toml (excluded by name, at any depth), .reuse/dep5 (excluded through its directory)
+    non += {"toml": ["REUSE.toml"], "dep5": [".reuse/dep5"]}.get(case["glob"], [])
+    non += [(t["dir"] + "/" if t["dir"] else "") + "REUSE.toml" for t in case.get("tomls", [])]
     dirs = sorted({os.path.dirname(p) for p in cov if os.path.dirname(p)}) + ["LICENSES"] + [x["p"] for x in case.get("extra", []) if x["k"] == "dir"]
     if not case["lic"]:
         dirs.remove("LICENSES")
